@@ -33,7 +33,7 @@ pub struct Item {
 
 pub fn plan_to_str(p: &Plan) -> String {
     format!(
-        "{}:{}:{}:{}:{}:{}",
+        "{}:{}:{}:{}:{}:{}:{}:{}",
         match p.order {
             Order::Pb => "pb",
             Order::Db => "db",
@@ -42,7 +42,9 @@ pub fn plan_to_str(p: &Plan) -> String {
         p.fair_k,
         p.horizon,
         p.max_execs,
-        p.single as u8
+        p.single as u8,
+        p.slow0,
+        p.prune as u8
     )
 }
 
@@ -55,6 +57,8 @@ pub fn plan_from_str(s: &str) -> Plan {
         horizon: f[3].parse().unwrap(),
         max_execs: f[4].parse().unwrap(),
         single: f.get(5).map(|x| *x == "1").unwrap_or(false),
+        slow0: f.get(6).map(|x| x.parse().unwrap()).unwrap_or(1),
+        prune: f.get(7).map(|x| *x == "1").unwrap_or(false),
     }
 }
 
@@ -263,16 +267,35 @@ pub fn run_item(prop: &str, item: &Item) -> ItemResult {
             match by_key.get(&vi.key) {
                 Some(i) => res.violations[*i].count += 1,
                 None => {
-                    // determinism: the same schedule must fail every time. Two replays; identical logs are
-                    // required unless the replay itself violates the property again (undefined behaviour of the
-                    // subject can make a *violating* execution irreproducible in its details, never in its verdict)
+                    // determinism: the same schedule must fail every time. It is re-run (non-strict: a forced
+                    // choice that no longer exists falls back to the default) up to 5 times. Identical
+                    // observations twice = deterministic. If the observations differ, the subject itself behaves
+                    // non-deterministically under a fixed schedule (undefined behaviour: reads of moved-out or
+                    // uninitialised memory): that is reported as a violation only if the re-runs violate the
+                    // property again, otherwise it is a machinery error.
                     let sch = obs.rec.choices();
-                    for _ in 0..2 {
-                        let o2 = run_case(case, &cfg, &sch, dispatch::body);
-                        let same = o2.rec.log == obs.rec.log && format!("{:?}", o2.result) == format!("{:?}", obs.result);
-                        if !same && judge(item, &o2, seq_result.as_ref()).is_empty() {
+                    let mut cfg2 = cfg.clone();
+                    cfg2.strict = false;
+                    let (mut identical, mut violating) = (0, 0);
+                    for _ in 0..5 {
+                        let o2 = run_case(case, &cfg2, &sch, dispatch::body);
+                        let same = !o2.rec.diverged && o2.rec.log == obs.rec.log && format!("{:?}", o2.result) == format!("{:?}", obs.result);
+                        if same {
+                            identical += 1;
+                        }
+                        if !judge(item, &o2, seq_result.as_ref()).is_empty() {
+                            violating += 1;
+                        }
+                        if identical >= 2 {
+                            break;
+                        }
+                    }
+                    let mut vi = vi;
+                    if identical < 2 {
+                        if violating < 2 {
                             sched::machinery_error(&format!("non-deterministic replay of schedule {} for case {}", schedule_str(&sch), case.encode()));
                         }
+                        vi.what = format!("{} [the execution is not reproducible in its details under the same schedule ({} of 5 re-runs violated the property again): undefined behaviour suspected]", vi.what, violating);
                     }
                     by_key.insert(vi.key.clone(), res.violations.len());
                     res.violations.push(FoundViol { viol: vi, schedule: sch, result: format!("{:?}", obs.result), log: fmt_log(&obs.rec), count: 1 });
